@@ -34,17 +34,23 @@ def run_case(c):
         out["parent"] = dict(t_start=float(fr.t_start), source_name=str(fr.source_name), fs=hexm(fr.fs), ts=hexm(fr.ts), fmin=float(fr.fmin).hex(), data=hexm(fr.data))
         before = fr.data.copy()
         op = c["op"]
+        nz = bool(c.get("normalize"))
         try:
             if op[0] == "slice":
                 res = fr.get_slice(op[1], op[2])
             elif op[0] == "dedrift":
                 res = stg.dedrift(fr, drift_rate=op[1]) if op[1] is not None else stg.dedrift(fr)
             elif op[0] == "integrate":
-                res = stg.integrate(fr, axis=op[1], mode=op[2], normalize=False, as_frame=op[3])
+                res = stg.integrate(fr, axis=op[1], mode=op[2], normalize=nz, as_frame=op[3])
             elif op[0] == "spectrum":
-                res = stg.spectrum(fr, mode=op[1])
+                res = stg.spectrum(fr, mode=op[1], normalize=True) if nz else stg.spectrum(fr, mode=op[1])
             elif op[0] == "timeseries":
-                res = stg.timeseries(fr, mode=op[1])
+                res = stg.timeseries(fr, mode=op[1], normalize=True) if nz else stg.timeseries(fr, mode=op[1])
+            if nz:
+                # the un-normalised integration of the same frame, for the exact comparison; the normalised values go to the normalisation oracle
+                axis = op[1] if op[0] == "integrate" else (0 if op[0] == "spectrum" else 1)
+                with np.errstate(all="ignore"):
+                    out["raw"] = hexm(stg.integrate(fr, axis=axis, mode=(op[2] if op[0] == "integrate" else op[1]), normalize=False, as_frame=False))
         except Exception as ex:
             out["err"] = type(ex).__name__
             return out
